@@ -126,7 +126,14 @@ def reader_table(run):
                     k = q.const_int(y[2][0])
                     if k is not None:
                         offs.append(k)
-            out[v] = {"keywords": kws, "units": units, "offsets": offs, "numeric": num, "sp": st["sp"], "casts": casts}
+            if v in out:
+                # a second way to spell the same variant (`last:<n>` as an alias of `head:<n>`): what the reader accepts is the union
+                prev = out[v]
+                out[v] = {"keywords": prev["keywords"] + [k for k in kws if k not in prev["keywords"]], "units": prev["units"] | units,
+                          "offsets": prev["offsets"] + offs, "numeric": prev["numeric"] if prev["numeric"] == num else None,
+                          "sp": prev["sp"], "casts": prev["casts"] + casts}
+            else:
+                out[v] = {"keywords": kws, "units": units, "offsets": offs, "numeric": num, "sp": st["sp"], "casts": casts}
     return b, out
 
 
@@ -170,7 +177,8 @@ def r1(run):
             continue
         pre = [lit for (k, lit) in r["keywords"] if k == "prefix"]
         stripped = [lit for (k, lit) in r["keywords"] if k == "prefix-stripped"]
-        ok_off = (len(pre) == 1 and r["offsets"] and all(o == len(pre[0]) for o in r["offsets"])) or (len(stripped) == 1 and not r["offsets"])
+        # (several spellings of one variant: as many slices as prefixes, each as long as a prefix of that length)
+        ok_off = (len(pre) >= 1 and len(r["offsets"]) == len(pre) and sorted(r["offsets"]) == sorted(len(p_) for p_ in pre)) or (len(stripped) >= 1 and not r["offsets"])
         run.ob(PARSE + "|%s|slice-offset" % v, bool(ok_off), r["sp"],
                "the numeric part starts right after the tested prefix (%r sliced at %s / strip_prefix %r)" % (pre, r["offsets"], stripped), reason="ttl-slice-offset")
     # the number is parsed at the width of the field it ends up in: no narrowing cast between parse and construction
